@@ -12,6 +12,28 @@ mod verif_c02 {
 
     /// arbitrary MultiState with M slots: a symbolic permutation of the slots, the first `live` of them in `ordering`
     /// (in that order), the rest in `free_set`
+    fn any_state_live(live: usize) -> (MultiState, [usize; M], usize) {
+        let mut ms = rig_multi(ProgressDrawTarget::hidden());
+        let mut i = 0;
+        while i < M {
+            ms.members.push(MultiStateMember::default());
+            i += 1;
+        }
+        let p0: usize = kani::any();
+        kani::assume(p0 < M);
+        let perm = [p0, 1 - p0];
+        let mut i = 0;
+        while i < M {
+            if i < live {
+                ms.ordering.push(perm[i]);
+            } else {
+                ms.free_set.push(perm[i]);
+            }
+            i += 1;
+        }
+        (ms, perm, live)
+    }
+
     fn any_state() -> (MultiState, [usize; M], usize) {
         let mut ms = rig_multi(ProgressDrawTarget::hidden());
         let mut i = 0;
@@ -38,22 +60,19 @@ mod verif_c02 {
 
     /// the kind of insert location is CONCRETE per harness (a symbolic choice among the five kinds together with Vec::insert
     /// at a symbolic index exhausts 16 GB); the slot permutation, the live/free split and the position argument are symbolic
-    fn insert_step(k: u8) {
-        let (mut ms, perm, live) = any_state();
-        let p: usize = kani::any();
-        kani::assume(p <= M + 1);
+    fn insert_step(k: u8, live: usize, p: usize) {
+        // live bars and position argument are concrete (Vec::insert at a symbolic index: out of memory at 16 GB after 25 min);
+        // which slot is where (the permutation, hence which slot is recycled and which bars are the anchors) is symbolic
+        let (mut ms, perm, live) = any_state_live(live);
+        if k >= 3 && p >= live {
+            return;
+        }
         let (loc, want) = match k {
             0 => (InsertLocation::End, live),
             1 => (InsertLocation::Index(p), if p < live { p } else { live }),
             2 => (InsertLocation::IndexFromBack(p), live.saturating_sub(p)),
-            3 => {
-                kani::assume(p < live);
-                (InsertLocation::After(perm[p]), p + 1)
-            }
-            _ => {
-                kani::assume(p < live);
-                (InsertLocation::Before(perm[p]), p)
-            }
+            3 => (InsertLocation::After(perm[p]), p + 1),
+            _ => (InsertLocation::Before(perm[p]), p),
         };
         let idx = ms.insert(loc);
         assert!(ms.ordering.len() == live + 1);
@@ -79,37 +98,62 @@ mod verif_c02 {
         assert!(ms.members[idx].draw_state.is_none() && !ms.members[idx].is_zombie);
         assert!(ms.ordering.len() + ms.free_set.len() == ms.members.len());
         assert!(ms.len() == ms.ordering.len());
-        kani::cover!(live == M);
-        kani::cover!(live == 0 || k >= 3);
-        kani::cover!(k != 2 || p > live);
+        kani::cover!(perm[0] == 1);
         std::mem::forget(ms);
     }
 
     macro_rules! c02_insert {
-        ($name:ident, $k:expr) => {
+        ($name:ident, $k:expr, $live:expr) => {
             #[kani::proof]
             #[kani::unwind(7)]
             fn $name() {
-                insert_step($k);
+                insert_step($k, $live, 0);
+                insert_step($k, $live, 1);
+                insert_step($k, $live, 2);
+                insert_step($k, $live, 3);
             }
         };
     }
 
-    // @harness id=C02 tier=quick timeout=2400 mem=16 checks=rust
-    // @bounds MultiState with 2 slots in any order / any split between live and free; insert at End (add): the new bar is last, the others keep their relative order, the slot is fresh or recycled, the invariant is preserved
-    c02_insert!(c02_insert_end, 0);
-    // @harness id=C02 tier=quick timeout=2400 mem=16 checks=rust
-    // @bounds same states; insert(Index(p)), p in 0..=3: the new bar sits at min(p, live)
-    c02_insert!(c02_insert_index, 1);
-    // @harness id=C02 tier=quick timeout=2400 mem=16 checks=rust
-    // @bounds same states; insert_from_back(p), p in 0..=3: the new bar sits at live - p (0 if p > live), counted among the LIVE bars only
-    c02_insert!(c02_insert_from_back, 2);
-    // @harness id=C02 tier=quick timeout=2400 mem=16 checks=rust
-    // @bounds same states; insert_after(anchor) for any live anchor: directly after it
-    c02_insert!(c02_insert_after, 3);
-    // @harness id=C02 tier=quick timeout=2400 mem=16 checks=rust
-    // @bounds same states; insert_before(anchor) for any live anchor: directly before it
-    c02_insert!(c02_insert_before, 4);
+    // @harness id=C02 tier=quick timeout=1800 mem=12 checks=rust
+    // @bounds MultiState with 2 slots, 0 live and 2 free, slots in ANY order (symbolic permutation); insert at End (add): the new bar is last; the others keep their relative order, the slot is recycled (most recently freed) or fresh, the invariant is preserved
+    c02_insert!(c02_insert_end_live0, 0, 0);
+    // @harness id=C02 tier=quick timeout=1800 mem=12 checks=rust
+    // @bounds MultiState with 2 slots, 1 live and 1 free, slots in ANY order (symbolic permutation); insert at End (add): the new bar is last; the others keep their relative order, the slot is recycled (most recently freed) or fresh, the invariant is preserved
+    c02_insert!(c02_insert_end_live1, 0, 1);
+    // @harness id=C02 tier=quick timeout=1800 mem=12 checks=rust
+    // @bounds MultiState with 2 slots, 2 live and 0 free, slots in ANY order (symbolic permutation); insert at End (add): the new bar is last; the others keep their relative order, the slot is recycled (most recently freed) or fresh, the invariant is preserved
+    c02_insert!(c02_insert_end_live2, 0, 2);
+    // @harness id=C02 tier=quick timeout=1800 mem=12 checks=rust
+    // @bounds MultiState with 2 slots, 0 live and 2 free, slots in ANY order (symbolic permutation); insert(Index(p)), p in 0..=3: the new bar sits at min(p, live); the others keep their relative order, the slot is recycled (most recently freed) or fresh, the invariant is preserved
+    c02_insert!(c02_insert_index_live0, 1, 0);
+    // @harness id=C02 tier=quick timeout=1800 mem=12 checks=rust
+    // @bounds MultiState with 2 slots, 1 live and 1 free, slots in ANY order (symbolic permutation); insert(Index(p)), p in 0..=3: the new bar sits at min(p, live); the others keep their relative order, the slot is recycled (most recently freed) or fresh, the invariant is preserved
+    c02_insert!(c02_insert_index_live1, 1, 1);
+    // @harness id=C02 tier=quick timeout=1800 mem=12 checks=rust
+    // @bounds MultiState with 2 slots, 2 live and 0 free, slots in ANY order (symbolic permutation); insert(Index(p)), p in 0..=3: the new bar sits at min(p, live); the others keep their relative order, the slot is recycled (most recently freed) or fresh, the invariant is preserved
+    c02_insert!(c02_insert_index_live2, 1, 2);
+    // @harness id=C02 tier=quick timeout=1800 mem=12 checks=rust
+    // @bounds MultiState with 2 slots, 0 live and 2 free, slots in ANY order (symbolic permutation); insert_from_back(p), p in 0..=3: the new bar sits at live - p (0 if p > live), counted among the LIVE bars only; the others keep their relative order, the slot is recycled (most recently freed) or fresh, the invariant is preserved
+    c02_insert!(c02_insert_from_back_live0, 2, 0);
+    // @harness id=C02 tier=quick timeout=1800 mem=12 checks=rust
+    // @bounds MultiState with 2 slots, 1 live and 1 free, slots in ANY order (symbolic permutation); insert_from_back(p), p in 0..=3: the new bar sits at live - p (0 if p > live), counted among the LIVE bars only; the others keep their relative order, the slot is recycled (most recently freed) or fresh, the invariant is preserved
+    c02_insert!(c02_insert_from_back_live1, 2, 1);
+    // @harness id=C02 tier=quick timeout=1800 mem=12 checks=rust
+    // @bounds MultiState with 2 slots, 2 live and 0 free, slots in ANY order (symbolic permutation); insert_from_back(p), p in 0..=3: the new bar sits at live - p (0 if p > live), counted among the LIVE bars only; the others keep their relative order, the slot is recycled (most recently freed) or fresh, the invariant is preserved
+    c02_insert!(c02_insert_from_back_live2, 2, 2);
+    // @harness id=C02 tier=quick timeout=1800 mem=12 checks=rust
+    // @bounds MultiState with 2 slots, 1 live and 1 free, slots in ANY order (symbolic permutation); insert_after(anchor) for every live anchor: directly after it; the others keep their relative order, the slot is recycled (most recently freed) or fresh, the invariant is preserved
+    c02_insert!(c02_insert_after_live1, 3, 1);
+    // @harness id=C02 tier=quick timeout=1800 mem=12 checks=rust
+    // @bounds MultiState with 2 slots, 2 live and 0 free, slots in ANY order (symbolic permutation); insert_after(anchor) for every live anchor: directly after it; the others keep their relative order, the slot is recycled (most recently freed) or fresh, the invariant is preserved
+    c02_insert!(c02_insert_after_live2, 3, 2);
+    // @harness id=C02 tier=quick timeout=1800 mem=12 checks=rust
+    // @bounds MultiState with 2 slots, 1 live and 1 free, slots in ANY order (symbolic permutation); insert_before(anchor) for every live anchor: directly before it; the others keep their relative order, the slot is recycled (most recently freed) or fresh, the invariant is preserved
+    c02_insert!(c02_insert_before_live1, 4, 1);
+    // @harness id=C02 tier=quick timeout=1800 mem=12 checks=rust
+    // @bounds MultiState with 2 slots, 2 live and 0 free, slots in ANY order (symbolic permutation); insert_before(anchor) for every live anchor: directly before it; the others keep their relative order, the slot is recycled (most recently freed) or fresh, the invariant is preserved
+    c02_insert!(c02_insert_before_live2, 4, 2);
 
     // @harness id=C02 tier=quick timeout=2400 mem=16 checks=rust
     // @bounds same states; remove_idx(i) for any slot i: a live slot leaves the order (others keep their relative order) and becomes free and reset; removing a free slot changes nothing
